@@ -267,7 +267,7 @@ func (p *Profile) Make(s *Sim, kind string) *Action {
 	case "get":
 		a.Opt["route"] = pageRoutes[r.Intn(len(pageRoutes))]
 	case "appset":
-		a.Opt["k"] = pick(r, "app_theme", "app_lang", "app_cart")
+		a.Opt["k"] = pick(r, "app_theme", "app_lang", "app_cart", "app_uid", "app_twofactor_hint", "xhalfauthx")
 		a.Opt["v"] = pick(r, "dark", "fr", "3-items")
 	case "advance":
 		g := s.Gaps()
